@@ -1,6 +1,7 @@
 //@ include contracts/time_iface.rs
 impl ParseISO8601<DateTime<FixedOffset>> for DateTime<FixedOffset> {
 //@ fn chronoutil.rs impl ParseISO8601<DateTime<FixedOffset>> for DateTime<FixedOffset> :: parse_from_iso8601
+//@ hideutf8
 //@ props C08 C16
 //@ ret r
 //@ replace 1 `offset_str.replace(':', "")` => `str_remove_char(offset_str, ':')`
@@ -93,6 +94,10 @@ impl ParseISO8601<DateTime<FixedOffset>> for DateTime<FixedOffset> {
                     assert(-362340 <= sign * hm_secs <= 362340) by (nonlinear_arith) requires (sign == 1 || sign == -1), 0 <= hm_secs <= 362340;
                     assert((sign == -1) == (o[0] == 0x2d)) by {
                         assert(sign_str.spec_bytes() =~= seq![o[0]]);
+                        assert("-".spec_bytes() == seq![0x2du8]);
+                        lemma_str_bytes_inj(sign_str@, "-"@);
+                        assert((sign_str@ == "-"@) == (sign_str.spec_bytes() == "-".spec_bytes()));
+                        assert(seq![o[0]][0] == o[0]);
                     }
                     assert(hour as int == dec(o.subrange(1, 3)));
                     assert(min as int == (if o.len() == 5 { dec(o.subrange(3, 5)) } else { dec(o.subrange(4, 6)) }));
